@@ -11,6 +11,21 @@ COMMON_TB = [
 NOT_CLAIMED_REASON = {}
 
 PROPS = {
+    "C05": {
+        "modules": ["AidlVerif.Props.C05"],
+        "theorems": ["Aidl.Props.C05.classify_eq", "Aidl.Props.C05.resolveTypes_eq", "Aidl.Props.C05.holds"],
+        "suites": ["proj", "dirs"],
+        "keys": {"corr": ["C05"], "spec": ["C05"], "assume": ["C05"], "outcome": True},
+        "trusted_base": COMMON_TB,
+        "assumptions": [
+            "hypothesis `Fresh` of Props.C05.holds (no diagnostic of another validation step carries the context message 'unknown type') is decidable and evaluated on every case",
+            "an 'unknown type' Error is recognised by kind = Error and context message 'unknown type'",
+            "where the statement leaves precedence open (several matching imports; a qualified built-in name that is also a suffix of an import) the specification takes the repaired code's choice (smallest qualified name; built-in first), see DESIGN.md §6",
+        ],
+        "level_text": "Theorems (all trees, all import/declaration lists, all sets of defined keys, all hash orders): `resolve_type` computes the scoping rule `classify` written from the statement (`classify_eq`); `resolve_types` rewrites EVERY type node at ANY depth by that rule and pushes exactly one 'unknown type' Error per node left unresolved, in order (`resolveTypes_eq`, mutual structural induction over the nested type tree); in the validated file the kinds of all nodes and the 'unknown type' Errors are exactly those (`holds`).",
+        "level_note": "Trusted: Lean kernel (+ propext, Classical.choice, Quot.sound), the hand-written model of validation.rs/traverse.rs tied to the code by the correspondence run (kinds of all type nodes and unknown-type ranges, model vs implementation), the harness. `defined` is recomputed by the model from the syntax-stage trees.",
+        "rule": "suite proj: random multi-file projects (1-6 files) with imports/declarations drawn from project keys, near misses, unresolvable and built-in names, and type references (depth <= 3) biased towards names related to the file's imports; suite dirs: the 17-category product. distinct = distinct input digest; non-trivial = at least one user-type reference in a parsed tree",
+    },
     "C07": {
         "modules": ["AidlVerif.Props.C07"],
         "theorems": ["Aidl.Props.C07.arg_rule", "Aidl.Props.C07.holds"],
